@@ -340,6 +340,11 @@ def encoding_refusals(ctx, index):
         if [bad, "no"] in accepted:
             ctx.unjudged("the runtime can encode the probe value after all")
             return
+        if accepted != [row for row in sequence if row != [bad, "no"]]:
+            # "can continue after a rejection": the rows around the refused one can be encoded
+            ctx.violation("C14:conforming-row-refused-after-encoding-refusal:%s" % kind, case, "a row that can be encoded was refused next to a row that cannot",
+                          expected=[row for row in sequence if row != [bad, "no"]], observed=accepted)
+            return
         cid2 = interface.Cid()
         cid2.read("<c14>", rows)
         back = [list(r) for r in cutplace.rows(cid2, path)]
